@@ -418,9 +418,17 @@ fn run(a: &vhcore::Args) -> i32 {
         }
 
         // ---- single faults: every (fault kind, point)
+        // (debugging aid: VH_C30_ONLY_PHASES=a,b restricts the enumeration to some phases; the run is
+        // then reported as not exhaustive)
+        let only_phases: Option<Vec<String>> = std::env::var("VH_C30_ONLY_PHASES").ok().map(|s| s.split(',').map(|x| x.trim().to_string()).collect());
         let mut faults: Vec<Fault> = vec![];
         for fk in &fault_kinds {
             for p in &pts {
+                if let Some(op) = &only_phases {
+                    if !op.contains(&p.phase) {
+                        continue;
+                    }
+                }
                 if *fk == FaultKind::Enospc && !enospc_applies(p) {
                     continue;
                 }
@@ -533,7 +541,11 @@ fn run(a: &vhcore::Args) -> i32 {
     rep.set("distinct_outcomes", json!(outcomes_distinct));
     rep.set("pairs_skipped_not_expressible_in_strace", skipped_pairs);
     rep.set("pairs_second_point_not_reached", unreached_second);
-    rep.set("exhaustive", true);
+    let restricted = std::env::var("VH_C30_ONLY_PHASES").is_ok();
+    rep.set("exhaustive", !restricted);
+    if restricted {
+        rep.cap(&format!("VH_C30_ONLY_PHASES={} — only these phases were enumerated", std::env::var("VH_C30_ONLY_PHASES").unwrap_or_default()));
+    }
     rep.assume("crash model: process crash (SIGKILL) — every completed syscall persists, so the on-disk state after a crash is exactly a prefix of the syscall sequence; power-loss reordering and torn single writes are out of scope");
     rep.assume("strace's SIGKILL injection stops the process on entry to the syscall (the syscall is not executed); the state after the last syscall is the fault-free run");
     rep.assume("one dependency, 6 files, local file:// transport of libgit2; network transports are not exercised");
